@@ -260,6 +260,37 @@ pub fn get_current_dir() -> String {
     str_current_dir.to_string()
 }
 
+/// Fields for `read`: at most `n`, the last one being the rest of the line
+/// verbatim. With the default IFS a run of blanks separates two fields and
+/// the rest is trimmed; with a custom IFS every separator character cuts.
+pub fn split_into_fields_n(
+    sh: &shell::Shell,
+    line: &str,
+    envs: &HashMap<String, String>,
+    n: usize,
+) -> Vec<String> {
+    let ifs: Vec<char> = match envs.get("IFS") {
+        Some(x) => x.chars().collect(),
+        None => sh.get_env("IFS").unwrap_or_default().chars().collect(),
+    };
+    let is_sep = |c: char| if ifs.is_empty() { " \t\n".contains(c) } else { ifs.contains(&c) };
+    let (mut fields, mut rest) = (Vec::new(), line);
+    while fields.len() + 1 < n {
+        if ifs.is_empty() {
+            rest = rest.trim_start_matches(is_sep);
+        }
+        match rest.char_indices().find(|&(_, c)| is_sep(c)) {
+            Some((i, c)) => {
+                fields.push(rest[..i].to_string());
+                rest = &rest[i + c.len_utf8()..];
+            }
+            None => break,
+        }
+    }
+    fields.push(if ifs.is_empty() { rest.trim_matches(is_sep) } else { rest }.to_string());
+    fields
+}
+
 pub fn split_into_fields(
     sh: &shell::Shell,
     line: &str,
